@@ -268,6 +268,15 @@ var Variants = []Variant{
 		c.Provs = append(c.Provs, &Prov{ID: len(c.Provs), Kind: Struct, Provides: []string{"*" + s}})
 		return c
 	}},
+	{"struct-field-alias", func(d *Decl, p int) *Decl {
+		// as struct-ptr, but the field is declared with an ALIAS of the type its consumers ask for
+		c := d.Clone()
+		s := fmt.Sprintf("S%d", p)
+		c.Structs[s] = []Field{{"F0", fmt.Sprintf("AT%d", p)}, {"F1", uname(p)}}
+		c.Provs[p].Provides[0] = "*" + s
+		c.Provs = append(c.Provs, &Prov{ID: len(c.Provs), Kind: Struct, Provides: []string{"*" + s}})
+		return c
+	}},
 	{"struct-val", func(d *Decl, p int) *Decl {
 		c := d.Clone()
 		s := fmt.Sprintf("S%d", p)
@@ -841,6 +850,16 @@ func Universe(tier string) []*Decl {
 		// two toggles on n<=3 shapes
 		for _, b := range basesC {
 			if len(b.Provs) > 3 || b.Provs[0].Fallible {
+				continue
+			}
+			// Async masks: none, all, and "all but the last" (the sink on the caller's thread)
+			na := 0
+			for _, p := range b.Provs {
+				if p.Async {
+					na++
+				}
+			}
+			if !(na == 0 || na == len(b.Provs) || (na == len(b.Provs)-1 && !b.Provs[len(b.Provs)-1].Async)) {
 				continue
 			}
 			for i, v1 := range Variants {
